@@ -1,5 +1,6 @@
 import HeimdallModel.Model.Conc
-/-! Invariants of the copy-on-write protocol machine and their preservation by every step of every thread. -/
+/-! Invariants of the copy-on-write protocol machine and their preservation by every step of every thread —
+lookups and changes that panic included — under the deferred release discipline (`Discipline.deferred`). -/
 namespace Heimdall.Conc
 
 variable {K T Op Req Ans : Type}
@@ -18,13 +19,13 @@ def holderOk (s : Seq K T Op Req Ans) (c : Config K T Op Req Ans) : Thread K T O
   | .writer _ .readK loc => (c.known, c.index) = run s c.log ∧ loc.1 = c.known
   | .writer _ .cloned loc => (c.known, c.index) = run s c.log ∧ loc = (c.known, c.index)
   | .writer op .computed st' => (c.known, c.index) = run s c.log ∧ s.apply (run s c.log) op = some st'
-  | .writer op .knownWritten st' | .writer op .rwHeld st' =>
+  | .writer op .knownWritten st' | .writer op .rwWaiting st' | .writer op .rwHeld st' =>
       c.index = (run s c.log).2 ∧ c.known = st'.1 ∧ s.apply (run s c.log) op = some st'
   | .writer _ .indexWritten _ | .writer _ .rwReleased _ => (c.known, c.index) = run s c.log
   | _ => False
 
 def inCS : Thread K T Op Req Ans → Prop
-  | .writer _ pc _ => pc ≠ .idle ∧ pc ≠ .doneOk ∧ pc ≠ .doneFail
+  | .writer _ pc _ => pc ≠ .idle ∧ pc ≠ .doneOk ∧ pc ≠ .doneFail ∧ pc ≠ .crashed
   | .reader .. => False
 
 structure Inv (s : Seq K T Op Req Ans) (c : Config K T Op Req Ans) : Prop where
@@ -98,32 +99,58 @@ theorem holder_of_inCS (s : Seq K T Op Req Ans) (c : Config K T Op Req Ans) (hi 
   Classical.byContradiction fun hne => hi.outside i hne hin
 
 theorem inv_step (s : Seq K T Op Req Ans) (c c' : Config K T Op Req Ans)
-    (hi : Inv s c) (hs : Step s c c') : Inv s c' := by
+    (hi : Inv s c) (hs : Step .deferred s c c') : Inv s c' := by
   cases hs with
-  | wLock i op loc h free =>
+  | wPanicLeaked hd _ i op pc loc h hpc hl => cases hd
+  | rPanicLeaked hd _ i rq st h => cases hd
+  | wPanicReleased hd _ i op pc loc h hpc hl =>
+    have hh := hi.held i hl
+    rw [h] at hh
+    have hst : (c.known, c.index) = run s c.log := by
+      rcases hpc with rfl | rfl <;> (simp only [holderOk] at hh; exact hh.1)
+    refine ⟨fun _ => hst, by simp, ?_, hi.index, ?_, ?_⟩
+    · refine outside_upd c i _ _ hi.outside ?_ (by simp [inCS])
+      intro j hji _ hc; rw [hl] at hc; exact hji (Option.some.inj hc).symm
+    · exact answers_upd s c c.log i _ ⟨[], by simp⟩ hi.answers (by simp)
+    · exact starts_upd c c.log i _ (Nat.le_refl _) hi.starts (by simp)
+  | rPanicReleased hd _ i rq st h =>
+    have hni : c.wlock ≠ some i := by
+      intro hl; have := hi.held i hl; rw [h] at this; simp [holderOk] at this
+    have hst := hi.starts i _ _ _ _ _ h
+    refine ⟨hi.free, ?_, ?_, hi.index, ?_, ?_⟩
+    · intro k hk
+      have : k ≠ i := fun e => hni (e ▸ hk)
+      have hk' := hi.held k hk
+      simp only [upd_other _ _ _ _ this]
+      cases hc : c.threads k <;> simp_all [holderOk]
+    · exact outside_upd c i _ _ hi.outside (fun j _ hj => hj) (by simp [inCS])
+    · exact answers_upd s c c.log i _ ⟨[], by simp⟩ hi.answers (by simp)
+    · exact starts_upd c c.log i _ (Nat.le_refl _) hi.starts (by
+        intro rq' pc a st' n he; simp at he; omega)
+  | wLock _ i op loc h free =>
     refine ⟨by simp, ?_, ?_, hi.index, ?_, ?_⟩
     · intro k hk; simp at hk; subst hk; simpa [holderOk] using hi.free free
     · exact outside_upd c i _ _ hi.outside (by simp [free]) (by simp)
     · exact answers_upd s c c.log i _ ⟨[], by simp⟩ hi.answers (by simp)
     · exact starts_upd c c.log i _ (Nat.le_refl _) hi.starts (by simp)
-  | wReadKnown i op loc h hl =>
+  | wReadKnown _ i op loc h hl =>
     exact inv_local s c i op _ _ _ _ hi h hl (by simp [inCS]) (by intro hh; simpa [holderOk] using hh)
-  | wClone i op loc h hl =>
+  | wClone _ i op loc h hl =>
     refine inv_local s c i op _ _ _ _ hi h hl (by simp [inCS]) ?_
     intro hh
     simp only [holderOk] at hh ⊢
     exact ⟨hh.1, by rw [hh.2]⟩
-  | wComputeOk i op loc st' h hl ha =>
+  | wComputeOk _ i op loc st' h hl ha =>
     refine inv_local s c i op _ _ _ _ hi h hl (by simp [inCS]) ?_
     intro hh
     simp only [holderOk] at hh ⊢
     exact ⟨hh.1, by rw [← hh.1, ← hh.2]; exact ha⟩
-  | wComputeErr i op loc h hl ha =>
+  | wComputeErr _ i op loc h hl ha =>
     refine inv_local s c i op _ _ _ _ hi h hl (by simp [inCS]) ?_
     intro hh
     simp only [holderOk] at hh ⊢
     exact ⟨hh.1, by rw [← hh.1, ← hh.2]; exact ha⟩
-  | wFail i op loc h hl =>
+  | wFail _ i op loc h hl =>
     have hh := hi.held i hl
     rw [h] at hh; simp only [holderOk] at hh
     refine ⟨fun _ => hh.1, by simp, ?_, hi.index, ?_, ?_⟩
@@ -131,7 +158,7 @@ theorem inv_step (s : Seq K T Op Req Ans) (c c' : Config K T Op Req Ans)
       intro j hji _ hc; rw [hl] at hc; exact hji (Option.some.inj hc).symm
     · exact answers_upd s c c.log i _ ⟨[], by simp⟩ hi.answers (by simp)
     · exact starts_upd c c.log i _ (Nat.le_refl _) hi.starts (by simp)
-  | wKnown i op st' h hl =>
+  | wKnown _ i op st' h hl =>
     have hh := hi.held i hl
     rw [h] at hh; simp only [holderOk] at hh
     refine ⟨by simp [hl], ?_, ?_, hi.index, ?_, ?_⟩
@@ -141,7 +168,7 @@ theorem inv_step (s : Seq K T Op Req Ans) (c c' : Config K T Op Req Ans)
     · exact outside_upd c i _ _ hi.outside (fun j _ hj => hj) (by simp [hl])
     · exact answers_upd s c c.log i _ ⟨[], by simp⟩ hi.answers (by simp)
     · exact starts_upd c c.log i _ (Nat.le_refl _) hi.starts (by simp)
-  | wRWLock i op st' h free nor =>
+  | wRWRequest _ i op st' h free =>
     have hl := holder_of_inCS s c hi i (by rw [h]; simp [inCS])
     have hh := hi.held i hl
     rw [h] at hh; simp only [holderOk] at hh
@@ -151,7 +178,17 @@ theorem inv_step (s : Seq K T Op Req Ans) (c c' : Config K T Op Req Ans)
     · exact outside_upd c i _ _ hi.outside (fun j _ hj => hj) (by simp [hl])
     · exact answers_upd s c c.log i _ ⟨[], by simp⟩ hi.answers (by simp)
     · exact starts_upd c c.log i _ (Nat.le_refl _) hi.starts (by simp)
-  | wIndex i op st' h hrw =>
+  | wRWAcquire _ i op st' h hrw nor =>
+    have hl := holder_of_inCS s c hi i (by rw [h]; simp [inCS])
+    have hh := hi.held i hl
+    rw [h] at hh; simp only [holderOk] at hh
+    refine ⟨by simp [hl], ?_, ?_, hi.index, ?_, ?_⟩
+    · intro k hk; simp [hl] at hk; subst hk
+      simpa [holderOk] using hh
+    · exact outside_upd c i _ _ hi.outside (fun j _ hj => hj) (by simp [hl])
+    · exact answers_upd s c c.log i _ ⟨[], by simp⟩ hi.answers (by simp)
+    · exact starts_upd c c.log i _ (Nat.le_refl _) hi.starts (by simp)
+  | wIndex _ i op st' h hrw =>
     have hl := holder_of_inCS s c hi i (by rw [h]; simp [inCS])
     have hh := hi.held i hl
     rw [h] at hh; simp only [holderOk] at hh
@@ -163,7 +200,7 @@ theorem inv_step (s : Seq K T Op Req Ans) (c c' : Config K T Op Req Ans)
     · exact outside_upd c i _ _ hi.outside (fun j _ hj => hj) (by simp [hl])
     · exact answers_upd s c (c.log ++ [op]) i _ ⟨[op], rfl⟩ hi.answers (by simp)
     · exact starts_upd c (c.log ++ [op]) i _ (by simp) hi.starts (by simp)
-  | wRWUnlock i op st' h hrw =>
+  | wRWUnlock _ i op st' h hrw =>
     have hl := holder_of_inCS s c hi i (by rw [h]; simp [inCS])
     have hh := hi.held i hl
     rw [h] at hh; simp only [holderOk] at hh
@@ -173,7 +210,7 @@ theorem inv_step (s : Seq K T Op Req Ans) (c c' : Config K T Op Req Ans)
     · exact outside_upd c i _ _ hi.outside (fun j _ hj => hj) (by simp [hl])
     · exact answers_upd s c c.log i _ ⟨[], by simp⟩ hi.answers (by simp)
     · exact starts_upd c c.log i _ (Nat.le_refl _) hi.starts (by simp)
-  | wUnlock i op st' h hl =>
+  | wUnlock _ i op st' h hl =>
     have hh := hi.held i hl
     rw [h] at hh; simp only [holderOk] at hh
     refine ⟨fun _ => hh, by simp, ?_, hi.index, ?_, ?_⟩
@@ -181,7 +218,7 @@ theorem inv_step (s : Seq K T Op Req Ans) (c c' : Config K T Op Req Ans)
       intro j hji _ hc; rw [hl] at hc; exact hji (Option.some.inj hc).symm
     · exact answers_upd s c c.log i _ ⟨[], by simp⟩ hi.answers (by simp)
     · exact starts_upd c c.log i _ (Nat.le_refl _) hi.starts (by simp)
-  | rLock i rq h free =>
+  | rLock _ i rq h free =>
     have hni : c.wlock ≠ some i := by
       intro hl; have := hi.held i hl; rw [h] at this; simp [holderOk] at this
     refine ⟨hi.free, ?_, ?_, hi.index, ?_, ?_⟩
@@ -194,7 +231,7 @@ theorem inv_step (s : Seq K T Op Req Ans) (c c' : Config K T Op Req Ans)
     · exact answers_upd s c c.log i _ ⟨[], by simp⟩ hi.answers (by simp)
     · exact starts_upd c c.log i _ (Nat.le_refl _) hi.starts (by
         intro rq' pc a st n he; simp at he; omega)
-  | rSearch i rq st h =>
+  | rSearch _ i rq st h =>
     have hni : c.wlock ≠ some i := by
       intro hl; have := hi.held i hl; rw [h] at this; simp [holderOk] at this
     have hst := hi.starts i _ _ _ _ _ h
@@ -212,7 +249,7 @@ theorem inv_step (s : Seq K T Op Req Ans) (c c' : Config K T Op Req Ans)
       simp [hi.index, hst]
     · exact starts_upd c c.log i _ (Nat.le_refl _) hi.starts (by
         intro rq' pc a st' n he; simp at he; omega)
-  | rUnlock i rq a st n h =>
+  | rUnlock _ i rq a st n h =>
     have hni : c.wlock ≠ some i := by
       intro hl; have := hi.held i hl; rw [h] at this; simp [holderOk] at this
     have hst := hi.starts i _ _ _ _ _ h
@@ -243,7 +280,8 @@ theorem inv_initial (s : Seq K T Op Req Ans) (c : Config K T Op Req Ans) (h : In
     rcases h7 j with ⟨op, loc, e⟩ | ⟨rq', e⟩ <;> simp [e] at hj
     omega
 
-theorem inv_reachable (s : Seq K T Op Req Ans) (c : Config K T Op Req Ans) (h : Reachable s c) : Inv s c := by
+theorem inv_reachable (s : Seq K T Op Req Ans) (c : Config K T Op Req Ans) (h : Reachable .deferred s c) :
+    Inv s c := by
   induction h with
   | init c hc => exact inv_initial s c hc
   | step c c' _ hs ih => exact inv_step s c c' ih hs
